@@ -177,13 +177,7 @@ def ape_variants(rng):
     return out
 
 
-class BufferedLike(io.BytesIO):
-    """io.BytesIO that refuses read(n < -1) with ValueError like a file opened by name"""
-
-    def read(self, n=-1):
-        if n is not None and n < -1:
-            raise ValueError("read length must be non-negative or -1")
-        return io.BytesIO.read(self, n)
+from fobj import BufferedLike
 
 
 # ---------------------------------------------------------------- inputs
@@ -403,15 +397,18 @@ def run(ctx):
             ctx.violation("ftype:%s:%s" % (target, type(r).__name__),
                           "%s(fileobj) raises %s (%s), not a MutagenError" % (target, type(r).__name__, str(r)[:80]), case)
             continue
-        if "ape-" in label and (target == kind or target == "APEv2File"):
-            # the same bytes through an object that refuses read(n < -1) like a file opened by name: `_APEv2Data` has no read
-            # with a negative length (the model reads natural numbers), so the outcome is the same
-            kb, rb = timed(lambda: cls(BufferedLike(data)), 30)
-            realb = "hang" if kb == "hang" else ("ok" if kb == "ok" else classify(rb))
+        # the same bytes through an object with the semantics of a file opened by name (read(n < -1) raises ValueError, a seek
+        # before the start raises OSError): what the caller of Type(path) gets
+        kb, rb = timed(lambda: cls(BufferedLike(data)), 30)
+        realb = "hang" if kb == "hang" else ("ok" if kb == "ok" else classify(rb))
+        ctx.hist["as-real-file:" + ("same" if realb == real else "differs:%s-vs-%s" % (realb.split(":")[-1], real.split(":")[-1]))] += 1
+        if "ape-" in label:
             ctx.hist["ape-buffered-like:" + ("same" if realb == real else "differs")] += 1
-            if realb != real:
-                ctx.violation("ftype:%s:negative-read-length" % target, "%s(fileobj) on an object with the read() of a file opened by name: %s (%s), "
-                              "on io.BytesIO: %s" % (target, realb, str(rb)[:60] if kb == "exc" else "", real), case)
+        if realb != real and realb in ("ok", "err:mutagen"):
+            ctx.notes.append("as-real-file differs: %s %s: %s vs BytesIO %s (%s)" % (target, label, realb, real, str(r)[:80] if k != "ok" else ""))
+        if realb not in ("ok", "err:mutagen"):
+            ctx.violation("ftype:%s:as-real-file:%s" % (target, realb.split(":")[-1]), "%s(fileobj) on an object with the semantics of a file opened by "
+                          "name: %s (%s); on io.BytesIO: %s" % (target, realb, str(rb)[:60] if kb == "exc" else "", real), case)
         if model is None:
             continue
         ctx.traces_validated += 1
